@@ -56,6 +56,8 @@ type Knobs struct {
 	VersionWalk   bool // C15: independent version + table content walkers
 	ForceValueSep bool
 	RatchetHeavy  bool
+	ScanInternal  bool // C45
+	NoMerge       bool // no Merge / SingleDelete (precondition of collapsed internal scans)
 }
 
 // Config is the drawn DB configuration; recorded in replays.
@@ -673,7 +675,7 @@ func (r *Run) genOp(allowSD bool) model.Op {
 			}
 			return model.Op{Kind: model.OpDeleteSized, Key: r.randKey(), Size: uint32(r.rng.IntN(100))}
 		case x < 56:
-			if !allowSD {
+			if !allowSD || r.K.NoMerge {
 				continue
 			}
 			// W1: exactly one Set and no Merge since the last delete.
@@ -692,6 +694,9 @@ func (r *Run) genOp(allowSD bool) model.Op {
 			a, b := r.randPointRange()
 			return model.Op{Kind: model.OpDeleteRange, Key: a, End: b}
 		case x < 74:
+			if r.K.NoMerge {
+				continue
+			}
 			return model.Op{Kind: model.OpMerge, Key: r.randKey(), Value: "+" + r.newValue()}
 		case x < 76:
 			return model.Op{Kind: model.OpLogData, Value: "log"}
@@ -1377,7 +1382,7 @@ func (r *Run) genIngestTables(lo, hi string, restrict bool) [][]model.Op {
 			switch x := r.rng.IntN(10); {
 			case x < 7:
 				ops = append(ops, model.Op{Kind: model.OpSet, Key: k, Value: r.newValue()})
-			case x < 8:
+			case x < 8 && !r.K.NoMerge:
 				ops = append(ops, model.Op{Kind: model.OpMerge, Key: k, Value: "+" + r.newValue()})
 			default:
 				ops = append(ops, model.Op{Kind: model.OpDelete, Key: k})
